@@ -6,7 +6,7 @@
    line splices are modelled (Names/LexDefs.v) and tied by runs only; that every later pass looks only at tokens and ids is carried by
    the end-to-end rewrite runs of tools/props/c05.py. *)
 From Coq Require Import List NArith Bool.
-From CV Require Import Base.Bytes Names.Defs Names.VmProofs Names.LexDefs Names.LexProofs Names.LexProofs2 Names.ReorderProofs.
+From CV Require Import Base.Bytes Names.Defs Names.VmProofs Names.LexDefs Names.LexProofs Names.LexProofs2 Names.LexProofs3 Names.ReorderProofs.
 Import ListNotations.
 Local Open Scope N_scope.
 
@@ -112,3 +112,38 @@ Example C05_reorder_invariant_inhabited :
   snd (vm_run (fst (vm_run vm0 pre)) d) = [2; 0; 3; 3; 1; 1] /\
   snd (vm_run (fst (vm_run vm0 (pre ++ ins))) d) = [4; 0; 5; 5; 1; 1].
 Proof. vm_compute. repeat split; reflexivity. Qed.
+
+(* stage 3, comments: separators are words over blanks, block comments and line comments (bodies without star, slash,
+   backslash, CR resp. without LF, backslash, CR). The full lexer returns the tokens - every comment becomes a comment
+   token, which is filtered out here as cppcheck's removeComments does - at the positions of the location map
+   (positions3: Location::adjust over the whole separator text). A separator is needed between two names and between two
+   operators, and a comment must not follow the operator slash directly (necessity: C05_lex_comment_after_slash_refuted). *)
+Theorem C05_lex_render_comments_partial : forall toks ws,
+  length ws = S (length toks) ->
+  Forall (fun w => forallb sitem_ok w = true) ws ->
+  forallb stok2_ok toks = true ->
+  sep3_ok ws toks = true ->
+  no_exp toks = true ->
+  ctx_ok false toks = true ->
+  map tstr (filter (fun t => negb (tcomment t)) (lex (render3 ws toks))) = map stok2_str toks /\
+  map (fun t => (tline t, tcol t)) (filter (fun t => negb (tcomment t)) (lex (render3 ws toks))) = positions3 ws toks 1 1.
+Proof.
+  intros toks ws H1 H2 H3 H4 H5 H6. pose proof (lex_render_comments toks ws H1 H2 H3 H4 H5 H6) as H.
+  unfold nc in H. rewrite H. split; [apply merged3_strs | apply merged3_positions]; assumption.
+Qed.
+Print Assumptions C05_lex_render_comments_partial.
+
+Example C05_lex_render_comments_partial_inhabited :
+  let toks := [TName [97]; TOp2 43 61; TName [98]; TOp 47; TName [99]; TOp 59] in
+  let ws := [[SBlock [104; 10; 105]; SBlank 10]; [SBlock []]; [SBlank 32; SLine [110]]; [SBlank 32]; [SBlank 32; SBlock [120]]; []; [SLine []]] in
+  length ws = S (length toks) /\ forallb (forallb sitem_ok) ws = true /\ forallb stok2_ok toks = true /\
+  sep3_ok ws toks = true /\ no_exp toks = true /\ ctx_ok false toks = true /\
+  map (fun t => (tstr t, tline t, tcol t)) (filter (fun t => negb (tcomment t)) (lex (render3 ws toks))) =
+    [([97], 3, 1); ([43; 61], 3, 6); ([98], 4, 1); ([47], 4, 3); ([99], 4, 10); ([59], 4, 11)].
+Proof. vm_compute. repeat split; reflexivity. Qed.
+
+Theorem C05_lex_comment_after_slash_refuted :
+  exists toks ws, length ws = S (length toks) /\ forallb stok2_ok toks = true /\ sep3_ok ws toks = false /\
+                  map tstr (filter (fun t => negb (tcomment t)) (lex (render3 ws toks))) <> map stok2_str toks.
+Proof. exact lex_comment_after_slash. Qed.
+Print Assumptions C05_lex_comment_after_slash_refuted.
